@@ -79,6 +79,8 @@
         /// ran with guessing forbidden (recorded by eval_asm::resolve_once's stub contract)
         pub uninterp spec fn asm_strict_value(r: &diagn::Report) -> expr::Value;
         pub uninterp spec fn asm_strict_stable(r: &diagn::Report) -> bool;
+        /// the bank position the strict pass laid the block's instructions out from (ghost record, like asm_strict_value)
+        pub uninterp spec fn asm_strict_start(r: &diagn::Report) -> usize;
 
         /// C04, data directives: the value v fits the directive width n and `stored` holds exactly its n low bits
         pub open spec fn data_fits(v: util::BigInt, n: usize, stored: util::BigInt) -> bool {
